@@ -81,6 +81,11 @@ def main():
                 for ax in axioms:
                     if ax not in allowed:
                         broken.append({'kind': 'proof', 'name': 'axiom:' + ax, 'detail': 'theorem depends on an axiom that is not in the declared trusted base'})
+            if tier == 'thorough' and rc == 0:
+                crc, cax, cdt = fw.coqchk(mod.COQ_PROP)
+                coq['coqchk'] = {'rc': crc, 'axioms': cax, 'seconds': cdt}
+                if crc != 0:
+                    broken.append({'kind': 'proof', 'name': 'coqchk', 'detail': cax})
             bad = fw.hygiene_grep()
             if bad:
                 broken.append({'kind': 'proof', 'name': 'hygiene', 'detail': '; '.join(bad[:5])})
@@ -156,6 +161,10 @@ def main():
             'broken_obligations': [b['name'] for b in broken],
             'search_ran': searched is not None,
         }
+        if 'coqchk' in coq:
+            cov['coqchk'] = coq['coqchk']
+            trusted.append('coqchk -o on props/%s.vo: axioms %s' % (mod.COQ_PROP, coq['coqchk']['axioms']))
+            cov['trusted_base'] = trusted
         cov.update(res.extra)
         ev = {
             'property_id': pid, 'tier': tier, 'seed': seed, 'level': mod.LEVEL,
